@@ -1,5 +1,5 @@
 """C05 - evaluation and iteration budgets are respected and counted truthfully."""
-from .. import alpha, e1prop, oracles
+from .. import alpha, ctrl, e1prop, oracles
 
 ID = "C05"
 LEVEL = "exploration"
@@ -10,7 +10,9 @@ ASSUMPTIONS = [
 ]
 RULE = ("complete cross product {objective, fun=None} x {no, linear, nonlinear constraints} x every maxfev from 1 to "
         "nb_points+4 and default x maxiter in {1,2,3,default} x every admissible nb_points x "
-        "store_history with history_size in {1,2,nfev-1,nfev,nfev+1} (nfev taken from the run without history cap). "
+        "store_history with history_size in {1,2,nfev-1,nfev,nfev+1} (nfev taken from the run without history cap); "
+        "plus engine E3: every control path of the real main loop against a scripted back end within 2 (thorough 3) "
+        "deviations of three nominal scripts and every maxfev from 1 to nb_points+6. "
         "Non-trivial = run ended by a budget or with a trimmed history; distinct = distinct bit-exact observation.")
 
 
@@ -51,6 +53,7 @@ def roots(tier, seed):
                         case["history_probe"] = True
                         case["explore"] = 0
                         out.append(case)
+    out += ctrl.roots(tier, deep=False)
     return alpha.permute(out, seed)
 
 
@@ -87,9 +90,20 @@ def _stats(rec, table, stats):
 
 
 def run_case(case):
+    if case.get("stub"):
+        return e1prop.run_case_generic(case, oracles.c05, menu=ctrl.menu, horizon=ctrl.horizon,
+                                       extra_stats=ctrl.stats)
     return e1prop.run_case_generic(case, oracles.c05, extra_stats=_stats, post=_post_history)
 
 
 def coverage(agg, tier, roots_):
-    need = ["runs_at_maxfev", "runs_at_maxiter", "feasibility_runs", "history_trimmed", "evals_tr"]
-    return e1prop.coverage_generic(agg, tier, roots_, RULE, need=need)
+    need = ["runs_at_maxfev", "runs_at_maxiter", "feasibility_runs", "history_trimmed", "evals_tr", "ctrl_runs",
+            "ctrl_status_5", "ctrl_status_6"]
+    cov, herr = e1prop.coverage_generic(agg, tier, roots_, RULE, need=need)
+    ok, fails, inter = ctrl.conformance_suite(tier)
+    cov["control_skeleton"] = {"executions": int(agg.stats.get("ctrl_runs", 0)),
+                               "choice_points": int(agg.stats.get("ctrl_choice_points", 0)),
+                               "deviation_bound": 1 if tier == "quick" else 2,
+                               "real_traces_replayed_through_skeleton": ok, "taped_interactions": inter}
+    herr += [f"conformance replay failed for {t}: {m}" for t, m in fails]
+    return cov, herr
